@@ -541,6 +541,11 @@ def classify_callee(F, e: Event) -> Tuple[str, str]:
             return ('pure', 'data method .%s' % m)
         if m in ('make_scope', 'push_scope', 'pop_scope'):
             return ('package', 'scope method .%s' % m)
+        owners = [cq for cq, ci in F.classes.items() if '.ply' not in ci.module.name and m in ci.methods]
+        if owners and (m.startswith('_') or len(m) > 3):
+            # receiver of unknown static type, but the name is a method of package classes only as far as this code base
+            # goes: every such method is analysed as a unit of its own (see the worklist in _r4)
+            return ('package', 'method .%s of %s (receiver type not resolved)' % (m, ', '.join(sorted(owners))))
         return ('unknown', 'method .%s on %s' % (m, show(recv)))
     if f[0] in ('param', 'sub', 'elem', 'unpack', 'call', 'closure'):
         return ('dynamic', 'program-supplied callable %s' % show(f))
@@ -575,6 +580,15 @@ def _r4(chk: Check, R4: str) -> None:
                                     todo.append((cq + '.' + mn, F.func(cq + '.' + mn), None))
                 elif e_.resolved and e_.resolved in F.functions and not e_.d.get('inlined') and e_.resolved not in done:
                     todo.append((e_.resolved, F.func(e_.resolved), None))
+                elif not e_.resolved and isinstance(freeze(e_.func), tuple) and freeze(e_.func)[:1] == ('attr',):
+                    mname = freeze(e_.func)[2]
+                    recv_ = freeze(e_.func)[1]
+                    if mname.startswith('__') or (isinstance(recv_, tuple) and recv_[:1] == ('super',)):
+                        continue        # constructors / protocol methods are reached through the objects that are built
+                    for cq, ci in F.classes.items():
+                        if '.ply' not in ci.module.name and mname in ci.methods and (cq + '.' + mname) in F.functions \
+                                and (cq + '.' + mname) not in done and mname != om.EVAL:
+                            todo.append((cq + '.' + mname, F.func(cq + '.' + mname), None))
         allp = list(paths)
         for c in om.all_closures(paths):
             if True:
